@@ -889,9 +889,9 @@ func monC12(c *child.Ctx, replay json.RawMessage) {
 				runFault(s, v, g, fmt.Sprintf("flip bit %d", bit))
 			}
 			c.Count("single_bit_flips", int64(len(f)*8-24))
-			// every byte overwritten by 0xD3 and by 0x00
+			// every byte overwritten by 0xD3, 0x00 and 0xFF
 			for p := 3; p < len(f); p++ {
-				for _, val := range []byte{0xD3, 0x00} {
+				for _, val := range []byte{0xD3, 0x00, 0xFF} {
 					if f[p] == val {
 						continue
 					}
@@ -1039,6 +1039,54 @@ func monC12(c *child.Ctx, replay json.RawMessage) {
 		}
 	}
 	relational = false
+	// the shortest frames (a message of 1, 2 or 3 bytes) as victims, followed by other
+	// data, by a frame, or by the end of the input; and runs of bytes set to 0xFF / 0x00
+	// from the start of the payload (a type field of all ones or all zeros)
+	nShort := c.Share(c.Pick(160, 3200))
+	for i := 0; i < nShort; i++ {
+		var vf gen.Seg
+		if i%2 == 0 {
+			ln := 1 + i/2%3
+			t := gen.PickType(r)
+			if ln == 1 {
+				t &^= 0x0F
+			}
+			fb := ref.Frame(gen.RandPayload(r, t, ln, r.Intn(3)))
+			vf = gen.Seg{Kind: "frame", Type: ref.TypeOf(fb), Bytes: fb}
+		} else {
+			for {
+				vf = gen.RandFrame(r)
+				if len(vf.Bytes) >= 9 && len(vf.Bytes) <= 60 {
+					break
+				}
+			}
+		}
+		s := gen.Stream{gen.RandFrame(r), vf}
+		switch i % 3 {
+		case 0:
+			s = append(s, gen.Junk(r), gen.RandFrame(r))
+		case 1:
+			s = append(s, gen.RandFrame(r))
+		}
+		f := vf.Bytes
+		for bit := 24; bit < len(f)*8; bit++ {
+			gg := append([]byte(nil), f...)
+			gg[bit/8] ^= 1 << uint(7-bit%8)
+			runFault(s, 1, gg, fmt.Sprintf("short or small victim, flip bit %d", bit))
+		}
+		for _, val := range []byte{0xFF, 0x00} {
+			for n := 1; n <= 3 && 3+n <= len(f)-3; n++ {
+				gg := append([]byte(nil), f...)
+				for j := 0; j < n; j++ {
+					gg[3+j] = val
+				}
+				if !bytes.Equal(gg, f) {
+					runFault(s, 1, gg, fmt.Sprintf("first %d payload bytes := %#x", n, val))
+				}
+			}
+		}
+		c.Count("short_victim_streams", 1)
+	}
 	// a slow consumer / an input that falls silent: the damaged frame is still delivered
 	// whole and alone
 	stalls := timedStalls(c)
